@@ -31,6 +31,11 @@ var propC11 = &pProp{
 				o := drawOpts(r, gp, 30, 25)
 				o.AllowInvalidUTF8 = false
 				o.MaxExpr = 0
+				if r.chance(1, 5) {
+					// a generous budget that never runs out (a server's safety net): it
+					// must not change anything about errors and panics
+					o.MaxExpr = []uint64{1 << 30, 1 << 40, 1<<63 + 5}[r.intn(3)]
+				}
 				if gp.Has["InitState"] && r.chance(1, 4) {
 					o.InitState = [][2]string{{"k0", "init"}}
 				}
